@@ -103,6 +103,17 @@ class Checker:
         """must-pass-through: cond holds in every state that reaches site"""
         it = self.interp(func, pins)
         ctext = cond if isinstance(cond, str) else unparse(cond)
+        # a condition that names a method which no longer exists cannot be decided (the helper was inlined or renamed)
+        try:
+            ctree = ast.parse(ctext, mode="eval") if isinstance(cond, str) else cond
+        except SyntaxError:
+            ctree = None
+        if ctree is not None:
+            klass = self.prg.class_of_func(func)
+            for sub_ in ast.walk(ctree):
+                if isinstance(sub_, ast.Call) and isinstance(sub_.func, ast.Attribute) and isinstance(sub_.func.value, ast.Name) and sub_.func.value.id == "self" and klass is not None:
+                    if f"{klass.qualname}.{sub_.func.attr}" not in self.prg.funcs and sub_.func.attr.startswith("_") and not sub_.func.attr.startswith("__"):
+                        raise AnalysisError(f"{self.current_rule.rid if self.current_rule else ''}: anchor vanished: the condition `{_short(ctext, 60)}` names {klass.qualname.split(':')[1]}.{sub_.func.attr}, which no longer exists")
         if not it.reachable(site):
             raise AnalysisError(f"{self.current_rule.rid if self.current_rule else ''}: site {sig} in {func.short} ({func.loc(site)}) is not reachable in the flow model")
         ok = it.holds(site, cond)
@@ -124,6 +135,12 @@ class Checker:
                 rule.run(self)
             except AnalysisError as err:
                 self.errors.append(f"{rule.rid}: {err}" if rule.rid not in str(err) else str(err))
+            except (IndexError, AttributeError, KeyError, TypeError, ValueError, StopIteration, AssertionError) as err:
+                # the code no longer has the shape the rule was written against: that is "cannot decide", not a crash
+                import traceback
+
+                where = traceback.extract_tb(err.__traceback__)[-1]
+                self.errors.append(f"{rule.rid}: anchor vanished: unexpected code shape ({type(err).__name__} at {os.path.basename(where.filename)}:{where.lineno})")
         self.current_rule = None
 
 
@@ -190,12 +207,33 @@ def load_known() -> list[dict]:
     return list(data.get("findings", []))
 
 
-def known_match(ob: Ob, known: list[dict]) -> Optional[dict]:
+def known_match(ob: Ob, known: list[dict], live_funcs: Optional[set[str]] = None) -> Optional[dict]:
+    """an open known finding covers the obligation if rule, function and obligation title agree; if the function the
+    entry names no longer exists in the tree (the code was moved or renamed), the same rule and title inside the same
+    module still denote that finding"""
     for entry in known:
         if entry.get("status") != "open":
             continue
         if entry.get("rule") == ob.rule and entry.get("function") == ob.func and entry.get("signature") == ob.sig:
             return entry
+    if live_funcs is not None:
+        for entry in known:
+            if entry.get("status") != "open" or entry.get("rule") != ob.rule or entry.get("signature") != ob.sig:
+                continue
+            efunc = str(entry.get("function", ""))
+            if efunc not in live_funcs and efunc.split(":")[0] == ob.func.split(":")[0]:
+                return entry
+    return None
+
+
+def moved_lookup(table: dict, func_short: str, text: str, live_funcs: set[str]):  # type: ignore[no-untyped-def,type-arg]
+    """triage tables are keyed by (function, text): exact hit, or - when the function an entry names is gone - the same
+    text inside the same module (the code moved with its justification)"""
+    if (func_short, text) in table:
+        return table[(func_short, text)]
+    for (efunc, etext), reason in table.items():
+        if etext == text and efunc not in live_funcs and efunc.split(":")[0] == func_short.split(":")[0]:
+            return reason
     return None
 
 
@@ -211,7 +249,7 @@ def finish(prop: str, tier: str, checker: Checker, obs: list[Ob], started: float
         if ob.key() in seen_keys:
             continue
         seen_keys.add(ob.key())
-        entry = known_match(ob, known)
+        entry = known_match(ob, known, {f.short for f in checker.prg.funcs.values()})
         if entry is not None:
             known_hits.append((ob, entry))
         else:
